@@ -15,7 +15,8 @@ RULE = ("cases are strings over letters, digits, space, tab, newline, NBSP, exot
         "documents with unprefixed or xsi-prefixed attributes, nested mixed content, every protected element name (markup, "
         "literalLayout, objectName, attributeName, para) at several depths and nested in each other, NBSP as literal characters, "
         "comments, CDATA. Each string/document is normalised once and twice. distinct = distinct inputs; non-trivial = inputs "
-        "containing at least one whitespace character")
+        "containing at least one whitespace character"
+        ". Also: names that begin or extend a protected name, internal DTD subsets with entities, documents starting with U+FEFF, the two modes called one after the other on the same string, documents normalised after every module of the package was used")
 ASSUMPTIONS = [
     "space-normalised = XPath normalize-space (strip and collapse space, tab, CR, LF) applied after NBSP -> space",
     "where the expected text of a segment is empty the output may hold whitespace only (serializer indentation)",
